@@ -41,6 +41,9 @@ ASSUMPTIONS = ["thresholds >= 0", "candidate grid taken from the observation (th
 def make_recipe(rng, tier):
     p = int(rng.integers(1, 4))
     spec, nmin = cbs(rng, p, dense_events=bool(rng.random() < 0.75))
+    from vf.zoo import _no_negative_tuned_threshold
+
+    spec = _no_negative_tuned_threshold(spec)
     nmax = 32 if tier == "quick" else (80 if rng.random() < 0.1 else 45)
     n = nmin if rng.random() < 0.06 else int(rng.integers(nmin, max(nmin + 1, nmax)))
     kind = ["collective", "collective", "mean_changes", "noise", "small_alphabet", "spikes",
@@ -51,6 +54,8 @@ def make_recipe(rng, tier):
     int_dtype = bool(rng.random() < 0.15)
     if int_dtype:
         X = np.round(2 * X)
+    elif rng.random() < 0.2:
+        X = X * float(rng.choice([1e-3, 1e-5, 1e-7]))  # the same signal in a small unit of measurement
     return {"det": spec, "X": X, "data_kind": kind, "int_dtype": int_dtype}
 
 
@@ -124,7 +129,7 @@ def exec_case(ctx, r):
         agg = score.evaluate(cuts).sum(axis=1)
         ctx.stat("table_rows_checked")
         ctx.stat("inner_intervals_evaluated", len(cand))
-        tol = 1e-9 * (1 + np.abs(agg).max())
+        tol = 1e-9 * np.abs(agg).max() + 1e-300  # purely relative: scores scale with the data's unit
         if abs(sc[i] - agg.max()) > tol:
             ctx.violation(sub, "row-score", f"{label}: candidate [{st[i]},{en[i]}) reports score {sc[i]} "
                           f"but the maximum over admissible inner intervals is {agg.max()}", r)
